@@ -151,13 +151,166 @@ def oracle(sp: dict, t: dict) -> list[str]:
     return msgs
 
 
+def interrupt_program(n_lines: list[int], ending: str, pos: int) -> tuple[str, int]:
+    """A script whose main thread starts len(n_lines) threads, waits until each of them is blocked in `go.wait()` (the handshake and the wait
+    are one line, hence one prompt: when the main thread goes on, every prompt these threads have had so far has been answered), and then runs
+    three lines inside a `try`.  Returns (source, number of the `pos`-th of these lines).  An interrupt delivered while the main thread sits at
+    its prompt there is caught (`ending == 'except'`) or passes through a `finally` (`'finally'`); either way the main thread then releases
+    the threads and joins them.  Worker i still has n_lines[i-1] + 2 lines to execute and a line of text to print at that moment."""
+    L = ['import threading', '', 'ready = threading.Semaphore(0)', 'go = threading.Event()', '', '']
+    for i, n in enumerate(n_lines, 1):
+        L += [f'def thread_body_{i}():', '    ready.release(); go.wait()', f'    v = {i}']
+        L += [f'    v = v + {k + 1}' for k in range(n)]
+        L += [f"    print('T{i} done', v)", '', '']
+    L.append('ts = []')
+    for i in range(1, len(n_lines) + 1):
+        L.append(f'ts.append(threading.Thread(target=thread_body_{i}))')
+    L += ['for t in ts:', '    t.start()', 'for t in ts:', '    ready.acquire()', 'try:']
+    target = len(L) + 1 + pos
+    L += ['    mark = 1', '    mark = 2', '    mark = 3']
+    if ending == 'except':
+        L += ['except KeyboardInterrupt:', '    mark = -1', 'go.set()', 'for t in ts:', '    t.join()']
+    else:
+        L += ['finally:', '    go.set()', '    for t in ts:', '        t.join()']
+    L.append("print('M done', mark)")
+    return '\n'.join(L) + '\n', target
+
+
+def interrupt_cases(chk: common.Check) -> list[dict]:
+    shapes = [(1, 'except'), (2, 'except'), (1, 'finally'), (2, 'finally')]
+    if chk.tier != 'quick':
+        shapes = shapes * 3 + [(3, 'except'), (3, 'finally')]
+    cases = []
+    for nw, ending in shapes:
+        n_lines = [chk.rng.randint(1, 4) for _ in range(nw)]
+        pos = chk.rng.randrange(3)
+        src, target = interrupt_program(n_lines, ending, pos)
+        cases.append({'source': src, 'target_line': target, 'ending': ending, 'n_lines': n_lines,
+                      'spec': {'statement': src, 'policy': {'kind': 'all', 'command': chk.rng.choice(['next', 'next', 'step'])},
+                               'trace_threads': True, 'timeout': 60}})
+    return cases
+
+
+def _per_trace(rec: dict, src: str) -> dict:
+    """what a real run reported, per worker function: its trace number(s), its prompts, its answers, its output, start/end of its trace"""
+    ranges = owner_ranges(src)
+    hooks = rec.get('hooks') or []
+    owner: dict = {fn: set() for fn in ranges}
+    for h in hooks:
+        e = h.get('event') or {}
+        if h['hook'] in ('on_start_trace_call', 'on_start_prompt') and e.get('file_name') == '<string>':
+            for fn, (a, b) in ranges.items():
+                if a <= e['line_no'] <= b:
+                    owner[fn].add(e['trace_no'])
+    out: dict = {}
+    for fn, ts in owner.items():
+        sel = [h for h in hooks if (h.get('event') or {}).get('trace_no') in ts]
+        out[fn] = {'traces': sorted(ts),
+                   'prompts': [[h['event']['event'], h['event']['line_no']] for h in sel if h['hook'] == 'on_start_prompt'],
+                   'answered': [h['event']['command'] for h in sel if h['hook'] == 'on_end_prompt'],
+                   'stdout': ''.join(h['event']['text'] for h in sel if h['hook'] == 'on_write_stdout'),
+                   'stdout_subscribed': ''.join(x[1] for x in rec.get('stdout') or [] if x[0] in ts),
+                   'started': sum(1 for h in sel if h['hook'] == 'on_start_trace'),
+                   'ended': sum(1 for h in sel if h['hook'] == 'on_end_trace')}
+    return out
+
+
+def interrupt_oracle(case: dict, ref: dict, run: dict, k: int) -> list[str]:
+    """`ref`: the run without interrupt; `run`: the same run with interrupt() delivered instead of the answer to the k-th prompt, which is the
+    main thread's prompt at case['target_line'].  The interrupt is an event of the main thread's trace: every other thread goes on exactly as
+    it does without it — prompted at each of its lines, every prompt answered, its output reported for its trace, its trace ended."""
+    rec = run.get('rec')
+    if not rec or rec.get('watchdog'):
+        return [f"scenario failed: the interrupted run produced no record (rc={run.get('rc')}, {(run.get('stderr') or '')[-300:]!r})"]
+    prompts = [h['event'] for h in rec['hooks'] if h['hook'] == 'on_start_prompt']
+    if rec.get('signal_sent_at_prompt') != k or len(prompts) < k or prompts[k - 1]['trace_no'] != 1 or prompts[k - 1]['line_no'] != case['target_line']:
+        at = [prompts[k - 1]['trace_no'], prompts[k - 1]['line_no']] if len(prompts) >= k else None
+        return [f"scenario failed: the interrupt was to replace the answer to prompt {k} = main thread at line {case['target_line']}; it was sent at "
+                f"prompt {rec.get('signal_sent_at_prompt')} (trace, line) = {at}"]
+    who = (f"interrupt() while the main thread (trace 1) sat at its open prompt at line {case['target_line']} "
+           f"({case['source'].split(chr(10))[case['target_line'] - 1].strip()!r}, inside try/{case['ending']}), every prompt of the other threads answered")
+    msgs = []
+    if not rec.get('finished'):
+        msgs.append(f"{who}: the run never finished ({rec.get('errors')})")
+    want, got = _per_trace(ref['rec'], case['source']), _per_trace(rec, case['source'])
+    for fn in sorted(want):
+        w, g = want[fn], got[fn]
+        if len(g['traces']) != 1:
+            msgs.append(f"{who}: {fn} is executed by one thread but its trace calls carry trace numbers {g['traces']}")
+            continue
+        x = g['traces'][0]
+        if x == 1:
+            msgs.append(f'{who}: {fn} runs in a thread of its own but its events carry the trace number of the main thread')
+        if g['prompts'] != w['prompts']:
+            missing = [p for p in w['prompts'] if p not in g['prompts']]
+            msgs.append(f"{who}: {fn} (trace {x}) was prompted at [event, line] {g['prompts']}; without the interrupt it is prompted at {w['prompts']}"
+                        + (f': it was never prompted at {missing}' if missing else ''))
+        elif len(g['answered']) != len(g['prompts']):
+            msgs.append(f"{who}: {fn} (trace {x}) had {len(g['prompts'])} prompts, {len(g['answered'])} of them ended with an answer")
+        for key, what in (('stdout', 'OnWriteStdout'), ('stdout_subscribed', 'subscribe_stdout()')):
+            if g[key] != w[key]:
+                msgs.append(f"{who}: the output reported ({what}) for {fn} (trace {x}) is {g[key]!r}; without the interrupt it is {w[key]!r}")
+                break
+        if (g['started'], g['ended']) != (1, 1):
+            msgs.append(f"{who}: the trace {x} of {fn} started {g['started']} and ended {g['ended']} time(s)")
+    shared = [t for fn in got for t in got[fn]['traces']]
+    if len(set(shared)) != len(shared):
+        msgs.append(f'{who}: different threads share a trace number: { {fn: got[fn]["traces"] for fn in got} }')
+    if rec.get('finished') and not msgs:
+        # the interrupt itself arrived where it belongs (otherwise the scenario did not exercise what it is meant to)
+        exc = rec.get('exception') or ''
+        main_out = ''.join(x[1] for x in rec.get('stdout') or [] if x[0] == 1)
+        if case['ending'] == 'except' and ('M done -1' not in main_out or exc):
+            msgs.append(f'scenario failed: the main thread was to catch the KeyboardInterrupt and print "M done -1"; its output is {main_out!r}, '
+                        f'format_exception() ends with {exc[-120:]!r}')
+        if case['ending'] == 'finally' and 'KeyboardInterrupt' not in exc:
+            msgs.append(f'scenario failed: the main thread was to end with the KeyboardInterrupt; format_exception() ends with {exc[-120:]!r}')
+    return msgs
+
+
+def run_interrupt_cases(chk: common.Check) -> list:
+    """→ [(spec, messages, first events)] for the cases that failed"""
+    cases = interrupt_cases(chk)
+    fails = []
+    refs = common.real_runs([c['spec'] for c in cases], jobs=4, hard_timeout=120)
+    todo = []
+    for c, ref in zip(cases, refs):
+        rec = ref.get('rec')
+        hit = []
+        if rec and rec.get('finished') and not rec.get('exception'):
+            pr = [h['event'] for h in rec['hooks'] if h['hook'] == 'on_start_prompt']
+            hit = [i for i, e in enumerate(pr, 1) if e['trace_no'] == 1 and e['event'] == 'line' and e['line_no'] == c['target_line']]
+        if len(hit) != 1:
+            fails.append((c['spec'], [f"scenario failed: the run without interrupt did not finish cleanly with one prompt of the main thread at line "
+                                      f"{c['target_line']}: prompts there {hit}, rc={ref.get('rc')}, errors={(rec or {}).get('errors')}, "
+                                      f"exception={((rec or {}).get('exception') or '')[-200:]!r}, stderr={(ref.get('stderr') or '')[-200:]!r}"], None))
+            continue
+        todo.append((c, ref, hit[0]))
+    runs = common.real_runs([dict(c['spec'], signal={'kind': 'interrupt', 'at_prompt': k}) for c, _, k in todo], jobs=4, hard_timeout=120)
+    for (c, ref, k), r in zip(todo, runs):
+        chk.cov.case(('interrupt-at-main-prompt', c['source'], c['ending'], c['target_line'], c['spec']['policy']['command']))
+        chk.cov.count('kinds', 'interrupt-at-the-open-prompt-of-the-main-thread-other-threads-go-on')
+        chk.cov.count('policy', c['spec']['policy']['command'] + '+interrupt')
+        m = interrupt_oracle(c, ref, r, k)
+        if m:
+            rec = r.get('rec') or {}
+            fails.append((r['spec'], m, {'prompts [trace, event, line]': [[h['event']['trace_no'], h['event']['event'], h['event']['line_no']]
+                                                                         for h in rec.get('hooks') or [] if h['hook'] == 'on_start_prompt'],
+                                         'stdout': rec.get('stdout'), 'exception': rec.get('exception'), 'errors': rec.get('errors'),
+                                         'stacks_at_timeout': rec.get('stacks_at_timeout'), 'stderr': (r.get('stderr') or '')[-1500:]}))
+    return fails
+
+
 def run(chk: common.Check) -> None:
     chk.cov.rule = ('generated programs that start 0–3 threads and 0–3 asyncio tasks (nested and sequential), each running its own worker function, '
                     'with trace_threads on and off, under next/step/continue/random policies, decoys, and a responder that withholds the answer to '
                     'one thread\'s first prompt until nothing else moves; through the real trace machinery in-process. The code location of a trace '
                     'call identifies the producing thread/task. Non-trivial: at least two entities besides the main thread; distinct = distinct '
-                    '(program, policy, options).')
-    chk.assumptions += ['OS/GIL scheduling of threads is whatever CPython produces in these runs (not exhibited by the model)',
+                    '(program, policy, options). Plus real Nextline runs (spawn child) of scripts with 1–3 threads that still have lines to execute '
+                    'and text to print when interrupt() is delivered instead of the answer to a prompt of the main thread (caught there, or passing '
+                    'through a finally): each thread is prompted, answered and reported exactly as in the same run without the interrupt.')
+    chk.assumptions += ['the interrupt scenario delivers SIGINT only while the main thread is the one at an open prompt, outside asyncio.run(), every '
+                        'prompt of the other threads answered: F-G2, F-G5 and F-G6 (C02) are recorded findings outside it','OS/GIL scheduling of threads is whatever CPython produces in these runs (not exhibited by the model)',
                         'a prompt blocks its own thread, hence every task of that thread\'s event loop: the non-blocking claim is about other threads']
     n2 = 60 if chk.tier == 'quick' else 600
     specs = [s for s in _trace.gen_specs(chk, 0, n2, with_modules=False)]
@@ -194,6 +347,11 @@ def run(chk: common.Check) -> None:
         enc = _trace.encode(evs)
         spans.append((sp, len(lines), len(enc)))
         lines += enc
+    # real runs: interrupt() at the open prompt of the main thread is an event of that trace only; the other threads go on as without it
+    try:
+        oracle_fail += run_interrupt_cases(chk)
+    except Exception as e:  # noqa
+        oracle_fail.append(({'scenario': 'interrupt at the open prompt of the main thread'}, [f'scenario failed: {type(e).__name__}: {e}'], None))
     model_err = None
     rejected = []
     try:
